@@ -772,7 +772,7 @@ fn item_json(i: &Item, parent_test: bool) -> Value {
                 json!(en
                     .variants
                     .iter()
-                    .map(|v| json!({"name": v.ident.to_string(), "l": line(v), "fields": fields_json(&v.fields)}))
+                    .map(|v| json!({"name": v.ident.to_string(), "l": line(v), "fields": fields_json(&v.fields), "attrs": attrs_json(&v.attrs).0}))
                     .collect::<Vec<_>>()),
             );
             Value::Object(m)
